@@ -65,6 +65,8 @@ SEEDS_QUICK = [
     ("simp", "foo*s/bar"),
     ("usys", "length"),
     ("usys", "velocity"),
+    ("keeparr", "foo"),
+    ("copykept",),
 ]
 SEEDS_THOROUGH = SEEDS_QUICK + [
     ("unit", "Mfoo"),
@@ -313,6 +315,14 @@ def apply_event(w, ev):
         elif k == "keepcopy":
             u = Unit(ev[1], registry=r)
             w.kept_copies.append((u * u).copy())  # the copy is bound to a shallow copy of the registry (same table)
+        elif k == "keeparr":
+            a = arr(r, ev[1])
+            w.kept_arrs.append((ev[1], a, float(a.units.base_value), dim_of(a.units.dimensions)))
+        elif k == "copykept":
+            for _s, a, _sc, _d in w.kept_arrs:
+                a.copy()
+                a.units.copy()
+                a.in_mks() if False else None
         elif k == "usys":
             # a unit system bound to this registry whose length unit is the user symbol; read one of its dimensions
             if w.us is None:
@@ -387,6 +397,7 @@ class System:
         w.T = {}
         w.kept = []
         w.kept_copies = []
+        w.kept_arrs = []
         w.us = None
         w.log = []
         w.edit_results = []
@@ -415,7 +426,7 @@ class System:
             tuple(w.log),
             world.digest()[0:3],
             # a unit system object bound to the registry, and what has been read through it (its own memo, if it had one)
-            tuple(ev for ev in hist if ev[0] == "usys"),
+            tuple(ev for ev in hist if ev[0] in ("usys", "keeparr", "copykept")),
         )
 
     def deviations(self, hist):
@@ -487,6 +498,30 @@ class System:
                         b,
                         a,
                     )
+        # arrays made before an edit keep the value they had - also when combined with arrays made after it, and when copied
+        for s0, a, sc0, d0 in w.kept_arrs:
+            ctx.decided((hist, "keptarr", s0))
+            if float(a.units.base_value) != sc0 or dim_of(a.units.dimensions) != d0:
+                ctx.violation("C12|kept-array|mode=old-array's-unit-changed", case, sc0, float(a.units.base_value))
+                continue
+            c = a.copy()
+            if float(c.units.base_value) != sc0 or not np.array_equal(np.asarray(c.d), np.asarray(a.d)):
+                ctx.violation("C12|kept-array|mode=copy-of-an-old-array-differs-from-it", case, sc0, float(c.units.base_value))
+            now = resolve_ref(w.T, s0)
+            if now[0] != "ok" or not same(resolve_real(w.r, s0), now):
+                continue
+            try:
+                b = arr(w.r, s0, (3.0, 4.0))
+                tot = a + b
+                got = ("ok", tuple((np.asarray(tot.d, dtype=float) * float(tot.units.base_value)).tolist()))
+            except Exception as e:  # noqa: BLE001
+                got = ("raise", type(e).__name__)
+            if now[3] != d0:
+                want = ("raise",)
+            else:
+                want = ("ok", (1.0 * sc0 + 3.0 * now[1], 2.0 * sc0 + 4.0 * now[1]))
+            if got[0] != want[0] or (got[0] == "ok" and not np.allclose(got[1], want[1], rtol=1e-12)):
+                ctx.violation(f"C12|kept-array|edit={info['last_edit'].get(s0, 'none')}|mode=old-plus-new-array-wrong", case, want, got)
         # a unit system bound to the registry answers from the registry's CURRENT contents, like a system built now
         if w.us is not None:
             def _read(us, dim):
